@@ -313,4 +313,63 @@ example : (evalNonStatio (some 1) (some 2) (some 3) (some 4) (some 5)).1 = 15 :=
 example : (evalNonStatio (some 1) none (some 3) none (some 5)).2.norm = 0 := by
   simp [evalNonStatio, evalStatio]
 
+/-! ### separable networks (SPINN) with a dynamic loss -/
+
+/-- total = sum of the returned entries for a stationary loss around a separable network -/
+theorem lossStatioSpinnDyn_total_eq_sum (d : Nat) (dyn : Option (Weight × (List ℚ → List ℚ)))
+    (norm : Option (ℚ × ℚ × (List ℚ → List ℚ) × List (List ℚ))) (boundary : Option ℚ)
+    (inside : List (List ℚ)) :
+    (lossStatioSpinnDyn d dyn norm boundary inside).1 = (lossStatioSpinnDyn d dyn norm boundary inside).2.sum :=
+  evalStatio_total_eq_sum _ _ _ _
+
+theorem lossNonStatioSpinnDyn_total_eq_sum (d : Nat) (dyn : Option (Weight × (List ℚ → List ℚ)))
+    (norm : Option (ℚ × ℚ × (ℚ → List ℚ → List ℚ) × List (List ℚ))) (boundary : Option ℚ)
+    (ic : Option (Weight × (List ℚ → List ℚ) × (List ℚ → List ℚ))) (inside : List (ℚ × List ℚ)) :
+    (lossNonStatioSpinnDyn d dyn norm boundary ic inside).1 =
+      (lossNonStatioSpinnDyn d dyn norm boundary ic inside).2.sum :=
+  evalNonStatio_total_eq_sum _ _ _ _ _
+
+/-- **the dynamic term of a separable network is the `dynTerm` of the residual over the tensor grid of
+    the coordinate columns of the batch** (all `d`, all batch sizes), `0` when not configured -/
+theorem lossStatioSpinnDyn_dyn (d : Nat) (dyn : Option (Weight × (List ℚ → List ℚ)))
+    (norm : Option (ℚ × ℚ × (List ℚ → List ℚ) × List (List ℚ))) (boundary : Option ℚ)
+    (inside : List (List ℚ)) :
+    (lossStatioSpinnDyn d dyn norm boundary inside).2.dyn =
+      match dyn with
+      | none => 0
+      | some (w, r) => dynTerm w r (gridPts d inside) := by
+  cases dyn <;> simp [lossStatioSpinnDyn, evalStatio]
+
+theorem lossNonStatioSpinnDyn_dyn (d : Nat) (dyn : Option (Weight × (List ℚ → List ℚ)))
+    (norm : Option (ℚ × ℚ × (ℚ → List ℚ → List ℚ) × List (List ℚ))) (boundary : Option ℚ)
+    (ic : Option (Weight × (List ℚ → List ℚ) × (List ℚ → List ℚ))) (inside : List (ℚ × List ℚ)) :
+    (lossNonStatioSpinnDyn d dyn norm boundary ic inside).2.dyn =
+      match dyn with
+      | none => 0
+      | some (w, r) => dynTerm w r (gridPts (d + 1) (inside.map fun tx => tx.1 :: tx.2)) := by
+  cases dyn <;> simp [lossNonStatioSpinnDyn, evalNonStatio, evalStatio]
+
+/-- without a dynamic loss the new functions are the ones C05 / C11 reason about -/
+theorem lossStatioSpinnDyn_none (d : Nat)
+    (norm : Option (ℚ × ℚ × (List ℚ → List ℚ) × List (List ℚ))) (boundary : Option ℚ)
+    (inside : List (List ℚ)) :
+    lossStatioSpinnDyn d none norm boundary inside = lossStatioSpinn d norm boundary := rfl
+
+theorem lossNonStatioSpinnDyn_none (d : Nat)
+    (norm : Option (ℚ × ℚ × (ℚ → List ℚ → List ℚ) × List (List ℚ))) (boundary : Option ℚ)
+    (ic : Option (Weight × (List ℚ → List ℚ) × (List ℚ → List ℚ))) (inside : List (ℚ × List ℚ)) :
+    lossNonStatioSpinnDyn d none norm boundary ic inside = lossNonStatioSpinn d norm boundary ic inside := rfl
+
+/-- a 2-point batch in 2 coordinates is a 4-point grid: the mean runs over all four -/
+example : gridPts 2 [[(1 : ℚ), 10], [2, 20]] = [[1, 10], [1, 20], [2, 10], [2, 20]] := by
+  simp [gridPts, columns, cart, List.range_succ, List.flatMap]
+
+example : (lossStatioSpinnDyn 2 (some (.scalar 1, fun p => [p.getD 0 0 + p.getD 1 0])) none none
+    [[1, 10], [2, 20]]).2.dyn = (11 ^ 2 + 21 ^ 2 + 12 ^ 2 + 22 ^ 2) / 4 := by
+  have h : gridPts 2 [[(1 : ℚ), 10], [2, 20]] = [[1, 10], [1, 20], [2, 10], [2, 20]] := by
+    simp [gridPts, columns, cart, List.range_succ, List.flatMap]
+  rw [lossStatioSpinnDyn_dyn]
+  simp only [h]
+  norm_num [dynTerm, mean, wsq, sqr]
+
 end Jinns.LossTerms
